@@ -196,6 +196,92 @@ func pairRename(r *vl.Rng, p *Program) map[ident]string {
 	return m
 }
 
+// requiredCount gives one struct of p a number of REQUIRED fields at a boundary of fastgo's 8-bit bitset words
+// (extra required i32 members are appended; the ones it had stay as they are).
+func requiredCount(r *vl.Rng, p *Program, count func(string)) *Program {
+	q := cloneProgram(p)
+	var cands []*idlgen.Struct
+	for _, f := range q.Files {
+		for _, s := range f.Structs {
+			if s.Kind == 's' {
+				cands = append(cands, s)
+			}
+		}
+	}
+	if len(cands) == 0 {
+		return p
+	}
+	s := cands[r.Intn(len(cands))]
+	n := []int{7, 8, 9, 15, 16, 17, 31, 32, 33, 63, 64, 65}[r.Intn(12)]
+	have, maxID := 0, 0
+	used := map[string]bool{}
+	for _, f := range s.Fields {
+		if f.Req == idlgen.Required {
+			have++
+		}
+		if int(f.ID) > maxID {
+			maxID = int(f.ID)
+		}
+		used[f.Name] = true
+	}
+	if have > n || maxID+n-have > 32000 {
+		return p
+	}
+	for i := 0; have < n; i++ {
+		name := "rq" + itoa(i)
+		if used[name] {
+			continue
+		}
+		maxID++
+		s.Fields = append(s.Fields, &idlgen.Field{ID: int16(maxID), HasID: true, Name: name, Req: idlgen.Required, Type: &Type{Kind: idlgen.I32}})
+		have++
+	}
+	count("stress.required-count." + itoa(n))
+	return q
+}
+
+func itoa(n int) string {
+	if n == 0 {
+		return "0"
+	}
+	s := ""
+	for ; n > 0; n /= 10 {
+		s = string(rune('0'+n%10)) + s
+	}
+	return s
+}
+
+// collidePackages gives two files with different go namespaces the same LAST segment (acme.common / partner.common):
+// both packages are called `common`, the import manager must alias the second one wherever it is referred to — also
+// when it is pulled in on demand through a typedef chain of another include.
+func collidePackages(r *vl.Rng, p *Program, count func(string)) *Program {
+	var idx []int
+	for i, f := range p.Files {
+		if i > 0 && f.GoNS != "" {
+			idx = append(idx, i)
+		}
+	}
+	if len(idx) < 2 {
+		return p
+	}
+	a := idx[r.Intn(len(idx))]
+	b := idx[r.Intn(len(idx))]
+	if a == b || p.Files[a].GoNS == p.Files[b].GoNS {
+		return p
+	}
+	last := r.Pick([]string{"common", "types", "base", "fmt", "thrift"})
+	m := map[ident]string{
+		{'N', a, "", p.Files[a].GoNS}: "acme" + itoa(a) + "." + last,
+		{'N', b, "", p.Files[b].GoNS}: "partner" + itoa(b) + "." + last,
+	}
+	q := rename(p, m)
+	if !valid(q) {
+		return p
+	}
+	count("stress.collide-packages")
+	return q
+}
+
 // stressRename returns a copy of p with up to n identifiers renamed from the wide pool (each candidate is kept
 // only if the program stays valid thrift: unique names where thrift wants them); what was applied is counted.
 func stressRename(r *vl.Rng, p *Program, n int, count func(string)) *Program {
